@@ -411,9 +411,45 @@ def _thread_returns(c, first_new, cont, dest, adt_discr):
             i = bl["term"]["t"]
         return out
 
+    def own_tail(i):
+        """When the arm that starts at block i runs straight to a `return` (no branch on the way), a copy of it, so that the threaded path keeps a return of
+        its own - as it had when the helper's `return Err(..)` was still written in the caller - instead of sharing the arm with the helper's other exits."""
+        seq = []
+        while True:
+            if len(seq) > 8 or i in seq:
+                return None
+            bl = c["blocks"][i]
+            tt = bl["term"]
+            seq.append(i)
+            if tt["k"] == "ret":
+                break
+            if tt["k"] == "goto":
+                i = tt["t"]
+            elif tt["k"] == "call" and tt.get("ret") is not None:
+                i = tt["ret"]
+            elif tt["k"] == "drop":
+                i = tt["t"]
+            elif tt["k"] == "assert":
+                i = tt["ok"]
+            else:
+                return None
+        base = len(c["blocks"])
+        for k, bi in enumerate(seq):
+            nb = copy.deepcopy(c["blocks"][bi])
+            tt = nb["term"]
+            if tt["k"] == "goto" or tt["k"] == "drop":
+                tt["t"] = base + k + 1
+            elif tt["k"] == "call":
+                tt["ret"] = base + k + 1
+            elif tt["k"] == "assert":
+                tt["ok"] = base + k + 1
+            c["blocks"].append(nb)
+        return base
+
     arms = {int(v): b for v, b in sw["arms"]}
     n = 0
-    for p_ in range(first_new, len(c["blocks"])):
+    last = len(c["blocks"])
+    for p_ in range(first_new, last):
         pb = c["blocks"][p_]
         v, nxt = value_of(pb)
         if v is None:
@@ -422,6 +458,9 @@ def _thread_returns(c, first_new, cont, dest, adt_discr):
         if chain is None:
             continue
         tgt = arms.get(arm_of(v), sw["otherwise"])
+        own = own_tail(tgt)
+        if own is not None:
+            tgt = own
         # copies, last to first: the continuation's test, then the straight-line blocks before it
         c["blocks"].append({"cleanup": False, "stmts": copy.deepcopy(pre), "term": {"k": "goto", "t": tgt}})
         head = len(c["blocks"]) - 1
